@@ -78,6 +78,9 @@ class SimPopen:
         cap = world.knobs.get("pipe_cap", 65536)
         child = SimProcess(world, "child", parent)
         child.argv = args
+        if parent is not None and parent.info.get("bare"):
+            # a process started on a host without execnet is on that same host
+            child.info["host_bare"] = True
         n = s.label("pp")
         world.name_process(child, args)
         to_child = Pipe(world, cap, f"{n}.{child.name}.in")
@@ -182,9 +185,22 @@ def _getpid():
     return t.proc.pid
 
 
+def _listdir(path="."):
+    names = _real["listdir"](path)
+    w = WORLD
+    t = _cur_task()
+    if t is None or w is None or getattr(w, "listdir_seed", None) is None:
+        return names
+    import hashlib
+    # directory order is file-system dependent: make it a seeded permutation
+    return sorted(names, key=lambda n: hashlib.blake2b(f"{w.listdir_seed}:{n}".encode(), digest_size=8).digest())
+
+
 def install_os_wrappers():
     if _real:
         return
+    _real["listdir"] = os.listdir
+    os.listdir = _listdir
     _real["kill"] = os.kill
     _real["_exit"] = os._exit
     _real["getpid"] = os.getpid
